@@ -106,7 +106,7 @@ def ifft(data, shift=True):
             res = np.fft.fftshift(data_np)
     else:
         if shift:
-            shifted = np.fft.fftshift(
+            shifted = np.fft.ifftshift(
                 data_np,
                 axes=[data.dims.index('m'), data.dims.index('n')])
             res = np.fft.ifft2(
